@@ -33,12 +33,11 @@ func CleanNameForSorting(name string) string {
 
 func isPrimitiveTypeList(types []*Type) bool {
 	for _, typ := range types {
-		if len(typ.Type) == 0 {
-			continue
-		}
-
-		if !IsPrimitiveType(typ.Type[0]) {
-			return false
+		// Every entry counts, not just the first one: ["null", "object"] is a nullable object, not a primitive.
+		for _, name := range typ.Type {
+			if !IsPrimitiveType(name) {
+				return false
+			}
 		}
 	}
 
